@@ -16,7 +16,7 @@ import copy
 
 
 def gen_selection_spec(rng, n_incompat_max=0, size=None, p_cycle=0.15, p_shared=0.3, p_island=0.0, p_multi_start=0.15,
-                       max_choices=4):
+                       max_choices=4, acyclic=False):
     n = size or rng.randint(3, 12)
     nodes = [f'N{i}' for i in range(n)]
     derive = set()
@@ -28,7 +28,7 @@ def gen_selection_spec(rng, n_incompat_max=0, size=None, p_cycle=0.15, p_shared=
         if rng.random() < 0.15:
             i = rng.randrange(0, j)
             derive.add((nodes[i], nodes[j]))
-    if rng.random() < p_cycle and n >= 3:
+    if not acyclic and rng.random() < p_cycle and n >= 3:
         j = rng.randrange(1, n)
         i = rng.randrange(j, n)
         if i != j:
@@ -56,7 +56,8 @@ def gen_selection_spec(rng, n_incompat_max=0, size=None, p_cycle=0.15, p_shared=
         reach = _universe()
         origin = rng.choice(reach) if rng.random() < 0.85 else nodes[rng.randrange(0, n)]
         k = rng.choice([1, 2, 2, 2, 3, 3, 4])
-        cands = [x for x in nodes if x != origin and x not in start and (origin, x) not in derive]
+        cands = [x for x in nodes if x != origin and x not in start and (origin, x) not in derive
+                 and (not acyclic or int(x[1:]) > int(origin[1:]))]
         rng.shuffle(cands)
         opts = []
         for x in cands:
@@ -120,10 +121,41 @@ def build(spec, initialize=True):
         choices[cid] = g.add_selection_choice(cid, nodes[origin], [nodes[o] for o in opts])
     for a, b in spec.get('incompat', []):
         g.add_incompatibility_constraint([nodes[a], nodes[b]])
+    from adsg_core.graph.adsg_nodes import DesignVariableNode, MetricNode
+    for dv in spec.get('dv', []):
+        if 'bounds' in dv:
+            node = DesignVariableNode(dv['name'], bounds=tuple(dv['bounds']))
+        else:
+            node = DesignVariableNode(dv['name'], options=list(dv['options']))
+        nodes[dv['name']] = node
+        g.add_edge(nodes[dv['host']], node)
+    for m in spec.get('metrics', []):
+        node = MetricNode(m['name'], direction=m.get('dir'), ref=m.get('ref'))
+        nodes[m['name']] = node
+        g.add_edge(nodes[m['host']], node)
     built = Built(None, nodes, choices, g)
     if initialize:
         built.dsg = g.set_start_nodes({nodes[s] for s in spec['start']})
     return built
+
+
+def add_dv_metrics(rng, spec, n_dv_max=2, n_metric_max=2):
+    """Design-variable and metric nodes hosted on random named nodes (conditional when the host is)."""
+    spec = copy.deepcopy(spec)
+    hosts = spec['nodes']
+    spec['dv'] = []
+    for i in range(rng.randint(0, n_dv_max)):
+        host = rng.choice(hosts)
+        if rng.random() < 0.5:
+            lo = rng.choice([0.0, -1.0, 2.5])
+            spec['dv'].append({'name': f'D{i}', 'host': host, 'bounds': [lo, lo + rng.choice([1.0, 2.0, 10.0])]})
+        else:
+            spec['dv'].append({'name': f'D{i}', 'host': host, 'options': list(range(10, 10 + rng.randint(1, 3)))})
+    spec['metrics'] = []
+    for i in range(rng.randint(0, n_metric_max)):
+        spec['metrics'].append({'name': f'M{i}', 'host': rng.choice(hosts), 'dir': rng.choice([-1, 1]),
+                                'ref': rng.choice([None, 1.0])})
+    return spec
 
 
 def label(node):
